@@ -14,13 +14,19 @@ import (
 type streamFn func(res *Result, drv *Driver, seed uint64, n int, tier string, only int) error
 
 var streams = map[string]streamFn{
-	"db":     runDb,
-	"rio":    runRio,
-	"skip":   runSkip,
-	"riodmg": runRioDmg,
-	"pq":     runPq,
-	"merge":  runMerge,
-	"crash":  runCrash, // crash images from strace'd real runs (C02, C07, C10, C13, C17); flavour via --flavour
+	"wal":     runWal,
+	"db":      runDb,
+	"dbfault": runDbFault,
+	"rio":     runRio,
+	"sst":     runSst, // C15 + C03: stream-writer programs x fault masks, every loader read back
+	"skip":    runSkip,
+	"riodmg":  runRioDmg,
+	"pq":      runPq,
+	"merge":   runMerge,
+	"mem":     runMem,     // C14: memstore programs vs reference map vs Lean model, both flush variants read back
+	"kaitai":  runKaitai,  // C20: generated Kaitai reader vs native reader vs Lean schema interpreter
+	"handles": runHandles, // C19: descriptors, mappings, goroutines vs the Lean handle model; bound + release oracles
+	"crash":   runCrash,   // crash images from strace'd real runs (C02, C07, C10, C13, C17); flavour via --flavour
 }
 
 func main() {
